@@ -453,3 +453,42 @@ func SortFields(w W) W {
 	}
 	return out
 }
+
+// DupFree reports whether every set and every map's key set is duplicate-free
+// under SemEqual, at every depth.
+func DupFree(w W) bool {
+	if w.K == KSet {
+		for i := range w.Elems {
+			for j := i + 1; j < len(w.Elems); j++ {
+				if SemEqual(w.Elems[i], w.Elems[j]) {
+					return false
+				}
+			}
+		}
+	}
+	if w.K == KMap {
+		for i := range w.Pairs {
+			for j := i + 1; j < len(w.Pairs); j++ {
+				if SemEqual(w.Pairs[i].K, w.Pairs[j].K) {
+					return false
+				}
+			}
+		}
+	}
+	for _, f := range w.Fields {
+		if !DupFree(f.V) {
+			return false
+		}
+	}
+	for _, e := range w.Elems {
+		if !DupFree(e) {
+			return false
+		}
+	}
+	for _, p := range w.Pairs {
+		if !DupFree(p.K) || !DupFree(p.V) {
+			return false
+		}
+	}
+	return true
+}
